@@ -4,11 +4,11 @@ import (
 	"bufio"
 	"encoding/json"
 	"fmt"
-	"os/exec"
 	"go/constant"
 	"go/token"
 	"go/types"
 	"os"
+	"os/exec"
 	"path/filepath"
 	"strings"
 
@@ -720,9 +720,9 @@ func bceCrossCheck(c *Ctx, r *Report, reach map[*ssa.Function]bool, obs []*panic
 	}
 	// functions by file:line range
 	type span struct {
-		file       string
-		from, to   int
-		fn         *ssa.Function
+		file     string
+		from, to int
+		fn       *ssa.Function
 	}
 	var spans []span
 	for _, fn := range c.ModFns {
